@@ -45,8 +45,13 @@ def check(case, ctx):
         ctx.event("smin>0")
     ctx.event("by-name" if case["byname"] else "by-number")
     np.random.seed(case["npseed"])
-    A = mod.genhkl_all(B.cell, B.smin, B.smax, **B.kw)
+    A = mod.genhkl_all(B.cell_arg, B.smin, B.smax, **B.kw)
     Ai, integral = HK.rows_to_int(A)
+    if Ai is not None:
+        try:                      # the caller owns the returned array and may overwrite it (e.g. scale it in place);
+            A[...] = -7.0         # that must not influence later calls (second call below)
+        except Exception:
+            pass
     if Ai is None:
         ctx.fail("shape/" + tag, "genhkl_all returned shape %r" % (np.asarray(A).shape,))
         return
@@ -72,7 +77,7 @@ def check(case, ctx):
             ctx.fail("missing/" + tag, "%s misses %d allowed reflections, e.g. %r" % (desc, len(missing), un or sorted(missing)[:3]))
     # independent of numpy's global random state
     np.random.seed(case["npseed2"])
-    A2 = mod.genhkl_all(B.cell, B.smin, B.smax, **B.kw)
+    A2 = mod.genhkl_all(B.cell_arg, B.smin, B.smax, **B.kw)
     A2i, _ = HK.rows_to_int(A2)
     if A2i is None or set(map(tuple, A2i.tolist())) != As or len(A2i) != len(Ai):
         ctx.fail("rng-dependent/" + tag, "%s differs between numpy seeds %d and %d" % (desc, case["npseed"], case["npseed2"]))
